@@ -549,7 +549,7 @@ func init() {
 		gen, exec, nt := twoWorlds(GenFleet(&fleetProfile{prop: id, stores: allKinds, roles: []string{"sketch", "sketch", "exact"}, minNodes: 1, maxNodes: 3, shareMap: true,
 			weights: []string{"unit", "int", "frac"}, valueSigns: []string{"pos", "neg", "mixed", "zeros"},
 			ops: ops, forms: []string{"bin", "binomit", "pb", "pbstream"}, modes: []string{"merge", "fresh", "reuse"}, queryEvery: map[string]int{"C14": 35, "C15": 0, "C16": 0}[id], maxOps: 120,
-			extra: map[string]func(*fleetGen){"C15": confusedSender}[id]}), GenStoreWorld(id))
+			extra: map[string]func(*fleetGen){"C15": confusedSender, "C16": confusedSender}[id]}), GenStoreWorld(id))
 		engine.Register(&engine.Prop{
 			ID: id, Level: "exploration", World: "fleet+store",
 			QuickRuns: 9000, ThoroughRuns: 900000,
@@ -663,6 +663,11 @@ func confusedSender(g *fleetGen) {
 		g.msgForms[id] = "bin"
 		g.msgOwner[id] = plain
 		g.emit(engine.Event{Ev: "deliver", N: exact.id, J: int64(id), S: "merge"})
+		if g.prof.prop == "C16" {
+			for k := r.Range(1, 3); k > 0; k-- {
+				g.emit(engine.Event{Ev: "reweight", N: exact.id, W: engine.F64(math.Ldexp(1, r.Range(-3, 4)))})
+			}
+		}
 		g.emit(engine.Event{Ev: "clear", N: exact.id})
 		exact.n = 0
 		for k := r.Range(1, 6); k > 0; k-- {
